@@ -8,4 +8,31 @@ package util
 //@   modifies pos(r)
 //@   alloc[0] bounded_by MaxAllowedSectionSize
 //@   ensures eof_clean [C02]: err == io.EOF ==> pos(r) == old(pos(r))
-//@   ensures monotone: pos(r) >= old(pos(r))
+//@   ensures monotone [C02]: pos(r) >= old(pos(r))
+//@   ensures bounded [C09]: err == nil ==> len(result0) <= MaxAllowedSectionSize
+//@   ensures consumed [C01]: err == nil ==> pos(r) == old(pos(r)) + vsize(len(result0)) + len(result0)
+
+//@ func ReadNode
+//@   modifies pos(br)
+//@   let data, derr := call[LdRead#0]
+//@   let n, c, cerr := call[cid.CidFromReader#0]
+//@   ensures split [C01]: err == nil ==> bytelen(result0) + len(result1) == len(data) && bytelen(result0) == n
+//@   ensures consumed [C01]: err == nil ==> pos(br) == old(pos(br)) + vsize(len(data)) + len(data)
+
+//@ func LdWrite
+//@   requires few: len(d) <= 16
+//@   assume psum0: psum(d, 0) == 0
+//@   elem d[i] as v: psum(d, i+1) == psum(d, i) + len(v) && ref(v) == elemref(d, i)
+//@   modifies wn(w)
+//@   loop[0] invariant sum_ok: sum == psum(d, rangeindex+1) && psum(d, rangeindex+1) <= (rangeindex+1) * 281474976710656
+//@   loop[1] invariant written: wn(w) == old(wn(w)) + vsize(sumlen(d)) + psum(d, rangeindex__2+1) && psum(d, rangeindex__2+1) >= 0
+//@   call[Writer.Write#0] assert prefix [C01]: len(arg1) == vsize(sumlen(d))
+//@   call[Writer.Write#1] assert chunk [C01]: ref(arg1) == elemref(d, rangeindex__2)
+//@   ensures count [C01,C15]: err == nil ==> wn(w) == old(wn(w)) + vsize(sumlen(d)) + sumlen(d)
+
+//@ func LdSize
+//@   requires few: len(d) <= 16
+//@   assume psum0: psum(d, 0) == 0
+//@   elem d[i] as v: psum(d, i+1) == psum(d, i) + len(v)
+//@   loop[0] invariant sum_ok: sum == psum(d, rangeindex+1) && psum(d, rangeindex+1) <= (rangeindex+1) * 281474976710656
+//@   ensures size [C01,C15]: result == vsize(sumlen(d)) + sumlen(d)
